@@ -348,7 +348,7 @@ namespace mfuse
         table = new(Entry_allocator.AllocTable(sizeof(Entry<KeyT, ValueT>*) * tableLength)) Entry<KeyT, ValueT> *[tableLength]();
 
         // rehash the table
-        for (uintptr_t i = std::min(oldTableLength, newCount); i > 0; i--)
+        for (uintptr_t i = oldTableLength; i > 0; i--)
         {
             // rehash all entries from the old table
             Entry<KeyT, ValueT>* old;
